@@ -403,6 +403,15 @@ def _fill_math(rng, comp, K):
                 A = [[(A[r][c] if r == c else 0.0) for c in range(n)] for r in range(m)]
             comp['A'][o['name']][inp['name']] = A
             comp['fmt'][o['name'] + '|' + inp['name']] = fmt
+    if comp['kind'] == 'aff' and K.get('sparse_decl') and len(comp['outs']) * len(comp['ins']) >= 2 and \
+            rng.random() < K['sparse_decl']:
+        # some (of, wrt) pairs do not depend on each other and the component does not declare them: the
+        # framework prunes its dataflow / relevance graph with such missing partials
+        pairs = [(o['name'], i['name']) for o in comp['outs'] for i in comp['ins']]
+        for of_, wrt_ in rng.sample(pairs, rng.randint(1, len(pairs) - 1)):
+            A_ = comp['A'][of_][wrt_]
+            comp['A'][of_][wrt_] = [[0.0] * len(A_[0]) for _ in A_]
+            comp.setdefault('undeclared', []).append(of_ + '|' + wrt_)
     if comp['kind'] == 'imp':
         o = comp['outs'][0]
         m = int(np.prod(o['shape']))
@@ -414,6 +423,8 @@ def _fill_math(rng, comp, K):
     if comp['kind'] == 'aff' and rng.random() < K['quad']:
         o = rng.choice(comp['outs'])
         inp = rng.choice(comp['ins'])
+        if o['name'] + '|' + inp['name'] in comp.get('undeclared', []):
+            comp['undeclared'].remove(o['name'] + '|' + inp['name'])
         m = int(np.prod(o['shape']))
         comp['quad'] = {'out': o['name'], 'in': inp['name'], 'coef': [dyadic(rng, -1, 1, 8) for _ in range(m)],
                         'normalise': True}
